@@ -139,7 +139,7 @@ def run(A, R: Report, thorough: bool):
     R.explanation = ('Injection-style lint over the symbolic term of the hashed text: which holes are spliced between literal delimiters without an injective escaper, whether '
                      'containers are traversed completely, which digest and how many digits. Injectivity of a text format is a property of its grammar and holds for all values at once. '
                      'Not decided: injectivity of user-written repr(); SHA-256 collisions.')
-    R.trusted = TRUSTED_BASE + ['builtin repr() is injective on JSON scalars and escapes quotes in strings']
+    R.trusted = TRUSTED_BASE + ['builtin repr() is injective on JSON scalars and escapes quotes in strings', "str.encode with errors='replace' / 'ignore' is not injective; the default (strict) and surrogatepass are"]
     R.assumptions = ['identifier-like holes (parameter names, class names, __init__ argument names, kwargs names, task names, stored digests) contain no quote, `=`, `#`, `$`, `,`']
     K = KeyTerms(A)
 
@@ -210,6 +210,11 @@ def run(A, R: Report, thorough: bool):
     algo = None
     if t[0] == 'method' and t[2] == 'hexdigest' and t[1][0] == 'call':
         algo = t[1][1].split('.')[-1]
+        # what is hashed is the text itself: a lossless encoding (the default, strict utf-8) - `errors='replace' / 'ignore'` maps different texts to the same bytes
+        encs = [x for x in dag_nodes(t[1]) if x[0] == 'call' and x[1] == 'encode']
+        lossy = [x for x in encs if len(x[2]) != 1]
+        R.check(bool(encs) and not lossy, 'R03.3', 'TaskParameterConfig.get_name_for_persistence: encoding', key_of('encode', [pretty(x)[-60:] for x in lossy] or len(encs)), 'text encoded losslessly (strict utf-8)',
+                f'the hashed bytes are `{pretty(lossy[0])[-80:] if lossy else "not an encoding of the text"}`: characters that cannot be encoded are replaced / dropped, so parameter values differing only there share a key', where=where(K.f_key))
     if algo is None:
         R.undecided('R03.3', 'TaskParameterConfig.get_name_for_persistence', f'digest construction not recognised: {pretty(t)[:80]}', where=where(K.f_key))
     else:
@@ -265,6 +270,24 @@ def run(A, R: Report, thorough: bool):
         R.check(same, 'R03.6', f'{ci.short}.__repr__', key_of('display-repr', pretty(t)[:100]), '__repr__ == repr()',
                 f'`{ci.short}.__repr__` is `{pretty(t)[:160]}`, not the persistence repr: builtin repr() of a container argument renders nested parameter objects through __repr__, so objects that differ where the display form is shortened / decorated share one key',
                 where=where(fr_))
+    # ---- R03.9 every constructor argument is part of the rendering unless it is excluded by one of the three documented ways
+    R.rule('R03.9', 'AutoParameterObject.repr leaves out an __init__ argument only when it is listed as ignored, marked IgnoreForPersistence, or equals its default and is listed as dont-persist-default', floor=1)
+    apo_maps = [x for x in dag_nodes(K.APO) if x[0] == 'mapdict' and x[4][0] in ('items', 'call', 'method') and 'parameters' in str(x[4])]
+    if not apo_maps:
+        R.undecided('R03.9', 'AutoParameterObject.repr', 'argument-collection idiom not recognised', where=where(K.f_apo))
+    for m_ in apo_maps[:1]:
+        g_ = m_[5]
+        conj_ = list(g_[1]) if g_ is not None and g_[0] == 'and' else ([g_] if g_ is not None else [])
+        other = []
+        for c_ in conj_:
+            txt = pretty(c_)
+            legit = 'IgnoreForPersistence' in txt or '.default' in txt or (c_[0] == 'cmp' and c_[1] in ('NotIn', 'In') and c_[2] == m_[1][0]) or 'ignore_persistence_args' in txt
+            if not legit:
+                other.append(txt[:100])
+        R.check(not other, 'R03.9', 'AutoParameterObject.repr: skipped arguments', key_of('apo-other-skip', other), f'{len(conj_)} skip condition(s), all documented',
+                f'an __init__ argument is also left out of the rendering when `{other[0] if other else ""}` fails: objects differing only in such an argument (e.g. values passed through **kwargs) get one repr and share storage',
+                where=where(K.f_apo))
+
     from .purity import check_key_stateless
     check_key_stateless(A, R, 'R03.7')
 
